@@ -74,7 +74,12 @@ func genC03Program(r *R, ex map[string]bool) *Program {
 		KV{"cs", &Val{T: "map", M: []KV{{"Accept", str("A1")}, {"accept", str("a2")}, {"ACCEPT", str("A3")}, {"b", str("b4")}, {"B", str("B5")}, {" b", str("sb")}}}},
 		KV{"cs2", &Val{T: "smap", M: []KV{{"Key", str("K")}, {"key", str("k")}, {"1", str("one")}, {"01", str("zero-one")}, {"1.0", str("one-dot")}}}},
 	)
-	maps := []string{"m1", "m2", "mi", "p1.Meta", "nm", "nm.b", "si", "mx", "cs", "cs2"}
+	ctx.M = append(ctx.M,
+		KV{"fm", &Val{T: "fmap", M: []KV{{"2.5", str("two-half")}, {"-1", str("minus")}, {"10", str("ten")}, {"2.25", str("two-quarter")}}}},
+		KV{"bm", &Val{T: "bmap", M: []KV{{"true", &Val{T: "int", I: 1}}, {"false", &Val{T: "int", I: 0}}}}},
+		KV{"km", &Val{T: "kmap", M: []KV{{"zeta", str("Z")}, {"alpha", str("A")}, {"mid", str("M")}}}},
+	)
+	maps := []string{"m1", "m2", "mi", "p1.Meta", "nm", "nm.b", "si", "mx", "cs", "cs2", "fm", "bm", "km", "gm", "gp.Meta"}
 	hashLit := func() string {
 		n := r.Range(2, 4)
 		keys := []string{"a", "b", "c", "d"}
